@@ -62,7 +62,7 @@ Theorem C02_phase_length : forall s n, InvC s -> fs_ok (pa_fs (a_pa s)) ->
   (0 <= Z.of_nat n < ticks_for inc)%Z ->
   let s' := fold_left adsr_step (repeat ATick n) s in
   a_state s' = a_state s /\ pa_acc (a_pa s') = (Z.of_nat n * inc)%Z /\
-  (Z.of_nat n + 1 = ticks_for inc ->
+  ((Z.of_nat n + 1 = ticks_for inc)%Z ->
    a_state (adsr_step s' ATick) = next_phase (a_state s)).
 Proof. exact phase_length_exact. Qed.
 
